@@ -400,6 +400,7 @@ func main() {
 			perSig[f.sig] = 0
 		}
 	}
+	outagePart(r)
 	r.Set("failing_cases", len(found))
 	var sk []int
 	for k := range samples {
